@@ -62,6 +62,8 @@ func matcher(label, kind string) string {
 		return label + `!=""`
 	case "reany":
 		return label + `=~".*"`
+	case "reopt":
+		return label + `=~"x|"`
 	}
 	panic("unknown matcher kind " + kind)
 }
@@ -130,7 +132,7 @@ func (e *Expr) Render() string {
 		case "lrep":
 			return fmt.Sprintf("label_replace(%s, %q, %q, %q, %q)", e.E.Render(), LabelName(e.Dst), e.Repl, LabelName(e.Src), e.Re)
 		case "ljoin":
-			return fmt.Sprintf("label_join(%s, %q, \",\", \"a\", \"b\")", e.E.Render(), LabelName(e.Dst))
+			return fmt.Sprintf("label_join(%s, %q, %q, \"a\", \"b\")", e.E.Render(), LabelName(e.Dst), e.Repl)
 		}
 		panic("unknown fn " + e.F)
 	case "agg":
